@@ -9,6 +9,10 @@ CHECKS = {
    text="Bounded symbolic model checking of the real cafs write/read code (Write, pFlush, flush, Flush, Put, Read, ReadAt, WriteTo, leafFreelist, golang-lru from source): for every leaf size 2..4 B, every content length 0..2 leaves+1 (thorough: 3 leaves+1), every content byte (symbolic), every source chunking (one big Write or 2 solver-sized chunks), every read buffer size 1..2 leaves, every ReadAt offset/length incl. past EOF, short reads / EOF-with-data from the store, the solver shows written size, stored layout and returned bytes are exact. Leaf sizes are below cafs.New's 64 B..5 MiB guard because byte buffers are cell vectors of concrete length; the code is parametric in the leaf size.",
    note="Trusted: go/ssa, the gosmt interpreter (natively cross-validated on sampled paths every run), BLAKE2b as injective UF, in-memory object-store stub, one cooperative schedule for the flush goroutines. Outside: real leaf sizes (64 B..5 MiB), >3 leaves, cache eviction pressure, prefetch depth >1, leafTruncation.",
    design="DESIGN.md §6 C01"),
+ "C04": dict(
+   text="Bounded symbolic model checking of bundle upload followed by download through the real code end to end (implUpload/uploadBundle/uploadBundleFiles/uploadBundleFile/skipFile/uploadBundleEntriesFileList/uploadBundleDescriptor, the real cafs writer and reader with hash verification, implPublish/unpackBundleDescriptor/unpackBundleFileList/unpackDataFiles/downloadBundleEntries, PublishFile/unpackDataFile): for every subset of a tree {a (2 symbolic bytes), d/b (1 symbolic byte), e (empty), .datamon/x (generated), d/.datamon (user file)} and 1..3 entries per index file, the download reproduces exactly the eligible files byte for byte, the listed entries match them one-to-one with the right sizes, the number of index files is ceil(files/entries-per-file) and generated paths are never uploaded; for every explicit key list over three files (with an optional missing key and an optional generated path) exactly the listed files are uploaded, and a filtered download (every predicate over the names) or a single-file download yields exactly the selected subset. Thorough adds a 70-byte file spanning two leaves.",
+   note="Trusted: go/ssa, gosmt interpreter (natively cross-validated), BLAKE2b as an injective uninterpreted function, yaml.v2 as round-tripping opaque documents, ksuid.NewRandom as fresh ids, in-memory stores, one cooperative schedule of the upload/download goroutines. Outside: trees of more than 5 files, leaf sizes other than 64, names with unicode/spaces (opaque to this code), concurrency above 2, arrival-order permutations of index files and malformed index files.",
+   design="DESIGN.md §6 C04"),
  "C05": dict(
    text="Bounded symbolic model checking of the real diff and update kernels: diffBundles over two bundles of 0..3 entries each (quick: at most 5 in total) with symbolic 1-byte names (unique per bundle) and symbolic 1-byte hashes - every listed path is justified (added = only in the new bundle, deleted = only in the old, changed = in both with different hashes) with the right entries attached, each path is listed at most once, and every path whose presence or hash differs is listed; downloadBundleEntries in update mode, driven through goroutines and channels exactly as unpackDataFiles drives it, for every combination of three files being absent / present with one of 2 (thorough 3) contents on either side and download concurrency 1..2 - afterwards the local copy holds exactly the target bundle's files with the target's contents and nothing else.",
    note="Trusted: go/ssa, gosmt interpreter (natively cross-validated), the cooperative goroutine/channel model (one schedule), stub content store (objects named by key; byte-level cafs behaviour is C01), in-memory consumable store. Outside: the metadata rewrite at the end of Update (cafs.New + PublishMetadata + YAML), more than 3 files, PopulateFiles.",
